@@ -216,6 +216,39 @@ class PassiveListener(CallbackListener):
         self.count += 1
 
 
+class ConnectOnlyListener(CallbackListener):
+    """a partial listener: overrides wire_connect_pin only"""
+
+    def __init__(self):
+        self.count = 0
+        super().__init__()
+
+    def wire_connect_pin(self, wire, pin):
+        self.count += 1
+
+
+class DisconnectOnlyListener(CallbackListener):
+    """a partial listener: overrides wire_disconnect_pin only"""
+
+    def __init__(self):
+        self.count = 0
+        super().__init__()
+
+    def wire_disconnect_pin(self, wire, pin):
+        self.count += 1
+
+
+class DataOnlyListener(CallbackListener):
+    """a partial listener: overrides dictionary_set only"""
+
+    def __init__(self):
+        self.count = 0
+        super().__init__()
+
+    def dictionary_set(self, element, key, value):
+        self.count += 1
+
+
 for _name in [n for n in dir(CallbackListener) if not n.startswith("_") and
               not n.startswith("register") and not n.startswith("deregister")]:
     if callable(getattr(CallbackListener, _name)):
